@@ -27,3 +27,6 @@ func (s *Smr) XsimVotes(id []byte) []*chainedBftPb.QuorumCertSign {
 	signs, _ := v.([]*chainedBftPb.QuorumCertSign)
 	return signs
 }
+
+// XsimHasNode reports whether the pending tree holds a node for the proposal id (C14 engine).
+func (s *Smr) XsimHasNode(id []byte) bool { return s.qcTree.DFSQueryNode(id) != nil }
